@@ -588,7 +588,14 @@ fn gen_c20(seed: u64, idx: usize, tier: Tier) -> C20Scenario {
                 for _ in 0..k {
                     seq[fd as usize] += 1;
                     // padding is valid UTF-8 but not ASCII in every third line (multi-byte characters may straddle any read boundary)
-                    let pad = if rng.chance(1, 3) { "é✓日本語ß".repeat(rng.below(12)) } else { "p".repeat(rng.below(60)) };
+                    // one line in ten carries terminal styling: reset within the line, or left open at its end
+                    let pad = if rng.chance(1, 10) {
+                        (*rng.pick(&["\x1b[31merror:\x1b[0m plain again", "\x1b[1;33mwarning: left open", "\x1b[2mdim ... still dim", "\x1b[38;5;81mlooks like a header colour"])).to_string()
+                    } else if rng.chance(1, 3) {
+                        "é✓日本語ß".repeat(rng.below(12))
+                    } else {
+                        "p".repeat(rng.below(60))
+                    };
                     s.push_str(&format!("{}@{} fd{} seq{} {}\n", cf.command, cf.target, fd, seq[fd as usize], pad));
                 }
                 OutStep { fd, hex: hex(s.as_bytes()), pause_ms: 0, close: false }
